@@ -390,3 +390,30 @@ func revokedBeforeCompletion(a *authzWorld) {
 		w.EndBlock()
 	}
 }
+
+// renewAfterGranteeUpdate: once a read-write grantee's update is the model's latest committed order, renewals and
+// permission changes are still owner-only.
+func renewAfterGranteeUpdate(a *authzWorld) {
+	w := a.w
+	for _, o := range []*world.Owner{a.owner, a.sowner} {
+		did := a.newModel(o, 1)
+		if did == "" {
+			continue
+		}
+		md := w.Cur.Metas[did]
+		_, oid := w.Store(world.StoreReq{Owner: a.rw.Id, Gateway: a.gw, DataId: did, CommitId: md.Commit + "|" + a.nextCommit(did), Duration: 3600, Replica: 1, Timeout: 400, Size: 1000, Alias: md.Alias})
+		if oid == 0 {
+			continue
+		}
+		w.CompleteAll(oid)
+		w.EndBlock()
+		for _, role := range a.roles(o) {
+			for _, kind := range []string{"renew", "permission"} {
+				if _, ok := w.Cur.Metas[did]; ok {
+					a.probe(did, o, kind, role, "none", a.gw.Acct, "gateway-after-grantee-update")
+				}
+			}
+		}
+		w.EndBlock()
+	}
+}
